@@ -224,6 +224,39 @@ def run(ctx):
                         break
     streams.append(s)
 
+    # several lines on one connection, also the very same line again (the same control measured twice, a result sent
+    # again on request): *every* line delivers exactly one message, and equal lines deliver equal messages
+    rw = Stream("lines-in-a-row")
+    for _ in range(1500 if ctx.thorough else 200):
+        fmt = r.choice(["astm", "lis2a", "json"])
+        pool = [mini_line(r)[0] if r.random() < 0.5 else spot_line(r)[0] for _k in range(2)]
+        seq_lines = [r.choice(pool) for _k in range(r.choice([2, 3, 4]))]
+        if r.random() < 0.5:
+            seq_lines[1] = seq_lines[0]
+        evs, marks = [], []
+        for ln in seq_lines:
+            if r.random() < 0.4:
+                evs.append(("d", gens.ENQ))
+            marks.append(len(evs))
+            evs.append(("d", ln))
+        obs, conn = run_real(fmt, evs)
+        case = {"format": fmt, "events": [gens.ev_hex(e) for e in evs]}
+        rw.case(case, nontrivial=len(set(seq_lines)) < len(seq_lines))
+        rw.count("repeats" if len(set(seq_lines)) < len(seq_lines) else "distinct")
+        first = {}
+        for k, (at, ln) in enumerate(zip(marks, seq_lines)):
+            ob = obs[at]
+            if ob["exc"] or len(ob["delivered"]) != 1:
+                rw.fail(dict(case, line_no=k), "line %d of %d on one connection (%s) delivered %d messages%s" % (
+                    k + 1, len(seq_lines), "a repeat of an earlier line" if ln in seq_lines[:k] else "first occurrence",
+                    len(ob["delivered"]), " and raised" if ob["exc"] else ""), "lines-in-a-row/delivery-count")
+                break
+            if ln in first and first[ln] != ob["delivered"][0] and fmt != "json":
+                rw.fail(dict(case, line_no=k), "the same line delivers a different message the second time", "lines-in-a-row/differs")
+                break
+            first.setdefault(ln, ob["delivered"][0])
+    streams.append(rw)
+
     # ordinary units and near misses must not be taken over
     n = Stream("not-taken-over")
     from senaite.astm.adapters.biomerieux import mini_vidas
@@ -251,7 +284,17 @@ def run(ctx):
         elif k == "near-spot":
             line, _ = spot_line(r)
             p = r.randrange(len(line))
-            u = r.choice([line[:p] + line[p + 1:], line[:-1], line[1:], line.replace(b"ID#", b"ID", 1), line.replace(b"mmol/L", b"mg/dL", 1)])
+            cands = [line[:p] + line[p + 1:], line[:-1], line[1:], line.replace(b"ID#", b"ID", 1), line.replace(b"mmol/L", b"mg/dL", 1)]
+            # padding / digits that only a Unicode-aware reading takes for white space or digits
+            sp = r.choice([b"\x1c", b"\x1f", b"\xc2\xa0", b"\xe3\x80\x80", b"\xc2\x85", b"\xa0"])
+            k = line.find(b" ", r.randrange(len(line)))
+            if k > 0:
+                cands += [line[:k] + sp + line[k + 1:]] * 2
+            dg = [i for i, ch in enumerate(line) if 48 <= ch <= 57]
+            if dg:
+                i = r.choice(dg)
+                cands += [line[:i] + r.choice(["\u0663", "\uff13", "\u0969", "\u00b3"]).encode("utf-8") + line[i + 1:]] * 2
+            u = r.choice(cands)
         else:
             u = gens.unit(r, k)
         units.append((k, u))
